@@ -76,3 +76,25 @@ def run(ctx):
 
     note2 = lazyfact_proofs.run(ctx, "C12")
     return note2 + f" configuration-level PyVC of groupby_reduce: {len(idx)} parameter variants ({'covering subset' if ctx.quick else 'all'} of 180), {n} obligations (L-sites `lazy[...]`, in-code asserts, exception types, preconditions of dask_groupby_agg)."
+
+
+def run_plan_obligations(ctx, pid):
+    """The same configuration-level execution of groupby_reduce, filed under another property: everything but the laziness
+    L-sites - the in-code asserts, the exception types of every feasible path and the plan preconditions at the call of
+    dask_groupby_agg (method='cohorts' only together with cohorts, blockwise only with the planner's consent, ...)."""
+    idx = select(ctx, 0)
+    with mp.get_context("forkserver").Pool(min(NCPU, len(idx))) as pool:
+        results = pool.map(_work, idx, chunksize=1)
+    n = 0
+    for obs, used, assumed in results:
+        keep = [o for o in obs if ".lazy[" not in o.name]
+        for o in keep:
+            o.name = pid + o.name[3:] if o.name.startswith("C12") else o.name
+        ctx.add_obligations(keep)
+        n += len(keep)
+        for u in used:
+            ctx.trust(f"assumed contract: {u}")
+        for a in assumed:
+            ctx.trust(f"assumed contract: {a}")
+    ctx.under_contract("flox.core.groupby_reduce (configuration level: exception types, asserts, plan preconditions)", "proved" if all(o.status == "discharged" for obs, _, _ in results for o in obs if ".lazy[" not in o.name) else "bounded")
+    return f" configuration-level PyVC of groupby_reduce: {len(idx)} parameter variants ({'covering subset' if ctx.quick else 'all'} of 180), {n} obligations (in-code asserts, exception types of every feasible path, plan preconditions at the call of dask_groupby_agg)."
